@@ -618,6 +618,22 @@ def run(ctx):
                 skip = [v for v in conj if isinstance(v, ast.Compare) and nv_ in astx.names_in(v) and isinstance(v.ops[0], ast.NotEq)]
                 if not skip:
                     o.violated(cs, anys[0], "the clique is compared with itself: every edge counts as overlapping")
+        elif not wls and [n for n in astx.walk_fn(cs.node) if isinstance(n, ast.For) and isinstance(n.iter, ast.Call) and txt(n.iter.func) == "range"
+                          and "issubset" in txt(n) and not any(isinstance(x, ast.For) and "issubset" in txt(x) for s_ in n.body for x in ast.walk(s_))]:
+            # the scan written as `for n in range(B)`: B must be the number of cliques, starting at 0
+            fl = [n for n in astx.walk_fn(cs.node) if isinstance(n, ast.For) and isinstance(n.iter, ast.Call) and txt(n.iter.func) == "range"
+                  and "issubset" in txt(n) and not any(isinstance(x, ast.For) and "issubset" in txt(x) for s_ in n.body for x in ast.walk(s_))][0]
+            ra = fl.iter.args
+            lo_ = tm.ZERO if len(ra) == 1 else rules.term_of(ra[0], Scope(cs.node))
+            hi_ = rules.term_of(ra[0] if len(ra) == 1 else ra[1], Scope(cs.node))
+            if len(ra) <= 2 and lo_ == tm.ZERO and hi_ == tm.parse("len(C)"):
+                o.holds(cs, fl, f"scan index {txt(fl.target)} runs over range(len(C)): every clique")
+                o.undecided("exits of the for-form scan not analysed", cs, fl)
+            elif len(ra) <= 2 and not tm.has_opaque(hi_) and not tm.has_opaque(lo_):
+                o.violated(cs, fl, f"the scan covers range({tm.show(lo_)}, {tm.show(hi_)}), not every clique 0..len(C)-1: an overlapping clique is overlooked, both get score 0 and their "
+                                   "shared edge is covered twice", shape_free=True)
+            else:
+                o.undecided(f"scan range `{txt(fl.iter)}` not understood", cs, fl)
         elif len(wls) != 1:
             o.undecided("inner scan loop not found", cs)
         else:
